@@ -251,11 +251,12 @@ func relKeys(ws *Workspace, keys []string) []string {
 // of LuaHelper's name resolution (findings C05-K1..K6); an occurrence in one of them may be bound
 // wrongly by either resolver.
 var resolverClasses = map[string]bool{
-	"in-initialiser-of-same-named-local":    true,
-	"in-bounds-of-same-named-numeric-for":   true,
-	"in-explist-of-same-named-generic-for":  true,
-	"in-rhs-of-assignment-to-same-name":     true,
-	"within-function-literal-in-for-header": true,
+	"in-initialiser-of-same-named-local":                true,
+	"in-bounds-of-same-named-numeric-for":               true,
+	"in-bounds-of-same-named-numeric-for:limit-or-step": true,
+	"in-explist-of-same-named-generic-for":              true,
+	"in-rhs-of-assignment-to-same-name":                 true,
+	"within-function-literal-in-for-header":             true,
 }
 
 func isResolverClass(cls string) bool {
